@@ -83,6 +83,9 @@ class State:
 
     def clone(s):
         n = State()
+        # copy-on-write: after a fork neither side owns the objects that existed before it
+        State._ids += 1
+        s.id = State._ids
         n.pc = list(s.pc)
         n.mem = dict(s.mem)
         n.nobj = s.nobj
@@ -110,7 +113,7 @@ class Config:
         s.mode = 'BITS'
         s.query_timeout_ms = 60000
         s.max_paths = 4000
-        s.loop_cap = 600          # visits of one block within one frame
+        s.loop_cap = 100000       # visits of one block within one frame (tightened per unit where it is a termination claim)
         s.max_instrs = 30_000_000
         s.concretize_limit = 64
         s.pinned = None           # list of concrete input values: differential run with pinned inputs
@@ -474,12 +477,19 @@ class Engine:
             ob.cells[off] = (sz, v)
             return s.conv_loaded(st, v, tk, bits)
         if s.A.name != 'BITS':
+            if len(ov) == 1 and ov[0][0] <= off and off + sz <= ov[0][0] + ov[0][1] and isinstance(ov[0][2], (int, IntV)):
+                # a narrow load out of one wider integer cell: (v div 2^(8*delta)) mod 2^(8*sz)
+                o, csz, v = ov[0]
+                u = s.A.U(st, v) if isinstance(v, IntV) else v
+                sh = 8 * (off - o)
+                r = s.A.mk((u / (1 << sh)) % (1 << (8 * sz)) if not isinstance(u, int) else (u >> sh) & MASK(8 * sz), 8 * sz, True)
+                return s.conv_loaded(st, r, tk, bits)
             # cells must tile the region exactly -> bundle
             pos = off; parts = []
             for o, csz, v in ov:
                 if o != pos: raise Inconclusive('INT mode: misaligned wide load')
                 parts.append((o - off, csz, v)); pos += csz
-            if pos != off + sz: raise Inconclusive('INT mode: wide load over partly uninitialised cells')
+            if pos != off + sz: raise Inconclusive(f'INT mode: wide load over partly uninitialised cells (off={off} size={sz} cells={[(o, c) for o, c, _ in ov]} objsize={ob.size} kind={ob.kind})')
             if all(isinstance(v, int) for _, _, v in parts):
                 return s.conv_loaded(st, sum(v << (8 * ro) for ro, _, v in parts), tk, bits)
             return Bundle(parts, sz)
@@ -526,10 +536,9 @@ class Engine:
         if f is None or not f.get('on'):
             return
         key = 'stores' if write else 'loads'
-        born = p.obj[1] if isinstance(p.obj[1], int) else -1
-        inner = born > f['mark']
-        f[key].add((ob.kind, 'inner' if inner else 'outer'))
-        if write and not inner:
+        shared = ob.kind != 'stack' or p.obj in f['shared']
+        f[key].add((ob.kind, 'shared' if shared else 'private'))
+        if write and shared:
             f['outer_stores'].add(str(p.obj))
 
     def load(s, st, p, ty, stack=None):
